@@ -148,11 +148,11 @@ type PropSpec struct {
 }
 
 var Specs = map[string]*PropSpec{
-	"C01": {Profiles: []string{"mix", "expiry", "size", "load", "refresh", "stats", "sweep", "queued"}, Classes: []string{"*"}, Quick: 24000, Thorough: 2000000, MinOps: 80, MaxOps: 300,
+	"C01": {Profiles: []string{"mix", "expiry", "size", "load", "refresh", "stats", "sweep", "queued", "sizeexp"}, Classes: []string{"*"}, Quick: 24000, Thorough: 2000000, MinOps: 80, MaxOps: 300,
 		Rule: "a generated operation sequence (config, ops) run against the model after every operation; non-trivial = at least 20 operations and at least one of: automatic removal, operation on an expired-unswept key, loader invocation; distinct = hash of (config, ops)"},
 	"C03": {Profiles: []string{"expiry"}, Classes: []string{"expired"}, OnExpired: true, Quick: 16000, Thorough: 1000000, MinOps: 60, MaxOps: 250,
 		Rule: "expiry-biased sequence (clock moved exactly onto deadlines, no CleanUp) where every public operation is applied to expired-but-unswept keys; non-trivial = at least 3 operations hit an expired-unswept key; distinct = hash of (config, ops)"},
-	"C07": {Profiles: []string{"size", "mix", "sweep", "queued"}, Classes: []string{"overflow", "bound"}, Quick: 16000, Thorough: 1000000, MinOps: 80, MaxOps: 400,
+	"C07": {Profiles: []string{"size", "mix", "sweep", "queued", "sizeexp"}, Classes: []string{"overflow", "bound"}, Quick: 16000, Thorough: 1000000, MinOps: 80, MaxOps: 400,
 		Rule: "size-biased sequence; every Overflow/Expiration event is judged against the model's total weight / deadline at that moment; non-trivial = at least one automatic removal; distinct = hash of (config, ops)"},
 	"C10": {Profiles: []string{"load", "refresh"}, Classes: []string{"load"}, OpKinds: []int{OpGet, OpBulkGet, OpRefresh, OpBulkRefresh}, Quick: 16000, Thorough: 1000000, MinOps: 60, MaxOps: 200,
 		Rule: "load-biased sequence with every loader outcome and bulk shape; non-trivial = at least 3 loader invocations with 2 different outcomes; distinct = hash of (config, ops)"},
@@ -162,9 +162,9 @@ var Specs = map[string]*PropSpec{
 		Rule: "deadline-biased sequence; after every operation ExpiresAtNano/RefreshableAtNano of every key is compared with op time + calculator duration (saturating); non-trivial = at least 5 calculator consultations; distinct = hash of (config, ops)"},
 	"C13": {Profiles: []string{"sweep"}, Classes: []string{"sweep"}, Quick: 12000, Thorough: 800000, MinOps: 80, MaxOps: 400,
 		Rule: "sweep-biased sequence (TTLs ns..years, clock jumps up to many wheel revolutions, CleanUp); at each CleanUp every entry older than one tick must be gone and reported; non-trivial = at least one CleanUp that judged an expired entry; distinct = hash of (config, ops)"},
-	"C04": {Profiles: []string{"size", "queued"}, Classes: []string{"bound"}, Quick: 6000, Thorough: 400000, MinOps: 80, MaxOps: 400,
+	"C04": {Profiles: []string{"size", "queued", "sizeexp"}, Classes: []string{"bound"}, Quick: 6000, Thorough: 400000, MinOps: 80, MaxOps: 400,
 		Rule: "sequential part: size-biased sequences, the weight total of the model's physical contents is compared with the maximum after every operation (same-goroutine executor, so maintenance has run)"},
-	"C05": {Profiles: []string{"size", "mix", "queued"}, Classes: []string{"views"}, Quick: 6000, Thorough: 400000, MinOps: 80, MaxOps: 400,
+	"C05": {Profiles: []string{"size", "mix", "queued", "sizeexp"}, Classes: []string{"views"}, Quick: 6000, Thorough: 400000, MinOps: 80, MaxOps: 400,
 		Rule: "sequential part: EstimatedSize, WeightedSize, GetMaximum, All/Keys/Values/Hottest/Coldest compared with the model after operations"},
 	"C06": {Profiles: []string{"mix", "expiry", "size", "queued"}, Classes: []string{"event"}, Quick: 8000, Thorough: 500000, MinOps: 80, MaxOps: 300,
 		Rule: "sequential part: the exact multiset of OnAtomicDeletion/OnDeletion events of every operation (own effects with Replacement/Invalidation/Expiration causes, automatic removals) is compared with the model"},
@@ -175,7 +175,7 @@ var Specs = map[string]*PropSpec{
 func (s *PropSpec) refutes(class string, opKind int, onExpired ...bool) bool {
 	if s.OnExpired && len(onExpired) > 0 && onExpired[0] {
 		switch class {
-		case "ret", "event", "calc", "deadline", "views":
+		case "ret", "event", "calc", "deadline", "views", "load", "refresh":
 			return true // the operation treated a dead entry as if it were there
 		}
 	}
